@@ -861,6 +861,16 @@ func (c *Conn) ReadBatchWith(cfg ReadBatchConfig) *Batch {
 		err = checkTimeoutErr(adjustedDeadline)
 	}
 
+	var kafkaError Error
+	if errors.As(err, &kafkaError) && remain > 0 {
+		// The broker reported an error for the partition: consume what is
+		// left of the response (the empty record set) so that the next
+		// operation on the connection starts at a response boundary.
+		if _, discardErr := discardN(&c.rbuf, remain, remain); discardErr != nil {
+			err = discardErr
+		}
+	}
+
 	var msgs *messageSetReader
 	if err == nil {
 		if highWaterMark == offset {
@@ -1158,6 +1168,9 @@ func (c *Conn) writeCompressedMessages(codec CompressionCodec, msgs ...Message) 
 		return
 	}
 
+	// error code reported by the broker for the partition, if any
+	var kafkaErr error
+
 	err = c.writeOperation(
 		func(deadline time.Time, id int32) error {
 			now := time.Now()
@@ -1231,7 +1244,10 @@ func (c *Conn) writeCompressedMessages(codec CompressionCodec, msgs ...Message) 
 						var p produceResponsePartitionV7
 						size, err := p.readFrom(r, size)
 						if err == nil && p.ErrorCode != 0 {
-							err = Error(p.ErrorCode)
+							// keep reading: the rest of the response must be
+							// consumed for the connection to remain usable
+							kafkaErr = Error(p.ErrorCode)
+							return size, nil
 						}
 						if err == nil {
 							partition = p.Partition
@@ -1243,7 +1259,8 @@ func (c *Conn) writeCompressedMessages(codec CompressionCodec, msgs ...Message) 
 						var p produceResponsePartitionV2
 						size, err := p.readFrom(r, size)
 						if err == nil && p.ErrorCode != 0 {
-							err = Error(p.ErrorCode)
+							kafkaErr = Error(p.ErrorCode)
+							return size, nil
 						}
 						if err == nil {
 							partition = p.Partition
@@ -1264,6 +1281,10 @@ func (c *Conn) writeCompressedMessages(codec CompressionCodec, msgs ...Message) 
 			}))
 		},
 	)
+
+	if err == nil {
+		err = kafkaErr
+	}
 
 	if err != nil {
 		nbytes = 0
